@@ -14,7 +14,7 @@ WORKERS = 4
 EXHAUSTIVE = {'quick': True, 'thorough': True}
 RULE = ('complete enumeration: every subset of {plain, @bash, @fish, @zsh, @pwsh} command definitions (32) x name in '
         '{X, PATH, DIRECTORY} x reference position {top level, tail of a word, through another definition, through two '
-        'definitions under four different pairs of names} and under ||, ... and a within-word ||} x 4 target shells = 3840 grammars, each definition with its own marker command `echo M_<name>_<flavour>`; plus plain '
+        'definitions under four different pairs of names, under ||, ... and a within-word ||, and behind one definition below [], ..., || and inside a word} (14) x 4 target shells = 5376 grammars, each definition with its own marker command `echo M_<name>_<flavour>`; plus plain '
         'non-command definitions of PATH / DIRECTORY. The rule of the statement (X@S, else plain, else built-in for '
         'PATH/DIRECTORY, else any word) is observed (1) on the command symbols of the automaton compiled by the real '
         'pipeline, (2) on the _<cmd>_cmd_N bodies of the script the real binary emits for the target (chosen marker '
@@ -23,13 +23,21 @@ RULE = ('complete enumeration: every subset of {plain, @bash, @fish, @zsh, @pwsh
         'and the next word is reached). non-trivial = every case; distinct by (grammar, target)')
 ASSUMPTIONS = ['for fish / zsh / pwsh the built-in case is judged as "one command body that is none of the grammar\'s markers"',
                'zsh: definitions for zsh and built-ins are compadd-style commands, plain {{{ }}} definitions are stdout commands']
-MIN_EVALS = {'quick': 3800, 'thorough': 3800}
+MIN_EVALS = {'quick': 5000, 'thorough': 5000}
 FLAVOURS = ('plain', 'bash', 'fish', 'zsh', 'pwsh')
 NAMES = ('X', 'PATH', 'DIRECTORY')
 POSITIONS = ('top', 'word', 'via')
 # a reference behind two definitions; the names vary because hash-map order of definition names must not matter
 VIA2 = {'via2-SUB-OPT': ('SUB', 'OPT'), 'via2-A-B': ('A', 'B'), 'via2-FIRST-SECOND': ('FIRST', 'SECOND'),
         'via2-OUTER-INNER': ('OUTER', 'INNER')}
+
+
+VIA_UNDER = {
+    'via-under-optional': lambda x: seq(lit('--opt'), gast.opt(x)),
+    'via-under-repeat': lambda x: seq(lit('go'), gast.many(x)),
+    'via-under-fallback': lambda x: gast.fb(x, lit('backup')),
+    'via-in-word': lambda x: ('word', (lit('k='), x)),
+}
 
 
 def marker(name, fl):
@@ -48,6 +56,10 @@ def build(name, subset, pos):
         stmts.append(call('cmd', seq(gast.many(gast.alt(lit('k'), nt(name))), lit('after'))))
     elif pos == 'under-fallback-in-word':
         stmts.append(call('cmd', seq(('word', (lit('pre='), gast.fb(lit('v'), nt(name)))), lit('after'))))
+    elif pos in VIA_UNDER:
+        # behind one definition, and there below an operator: the dependency between definitions must be seen there
+        stmts.append(call('cmd', seq(nt('W'), lit('after'))))
+        stmts.append(defn('W', None, VIA_UNDER[pos](nt(name))))
     elif pos in VIA2:
         n1, n2 = VIA2[pos]
         stmts.append(call('cmd', seq(nt(n1), lit('after'))))
@@ -75,7 +87,8 @@ def all_cases():
     for name in NAMES:
         for k in range(len(FLAVOURS) + 1):
             for subset in itertools.combinations(FLAVOURS, k):
-                for pos in POSITIONS + tuple(VIA2) + ('under-fallback', 'under-repeat', 'under-fallback-in-word'):
+                for pos in POSITIONS + tuple(VIA2) + ('under-fallback', 'under-repeat', 'under-fallback-in-word') + \
+                        tuple(VIA_UNDER):
                     for target in common.SHELLS:
                         yield (name, subset, pos, target)
 
